@@ -1,113 +1,89 @@
-(* Proofs about the access programs of Jobs/JobControl.v: an inductive invariant over all
-   reachable configurations (any clients, any schedule) and the C08 theorems. *)
+(* Second inductive invariant (histories vs. configurations) and the C08 theorems about the
+   access programs of Jobs/JobControl.v, for every list of clients and every schedule. *)
 From Coq Require Import ZArith List Bool Lia Arith.
-From Bardolph Require Import Jobs.Threads Jobs.ThreadsFacts Jobs.JobVocab Jobs.JobControl Jobs.JobControlSpec.
+From Bardolph Require Import Jobs.Threads Jobs.ThreadsFacts Jobs.JobVocab Jobs.JobControl Jobs.JobControlSpec Jobs.JobControlInv.
 Import ListNotations.
 Open Scope list_scope.
 Open Scope nat_scope.
 
-(* ---------- static facts about program counters ---------- *)
-Fixpoint krels (k : kont) : nat :=
-  match k with KRel k' => S (krels k') | KRetV _ k' => krels k' | _ => 0 end.
-Definition held (p : pc) : nat := krels (snd p).
+(* ---------- facts about the specification's functions ---------- *)
+Definition is_begin (e : sev) (j : Z) : nat :=
+  match e with SBegin i _ => if Z.eq_dec i j then 1 else 0 | _ => 0 end.
 
-Definition needs_lock (pt : point) : bool :=
+Lemma exec_count_cons : forall e es j, exec_count (e :: es) j = is_begin e j + exec_count es j.
+Proof.
+  intros. unfold exec_count. simpl.
+  destruct (sev_eq_dec e (SBegin j true)) as [E1|N1]; destruct (sev_eq_dec e (SBegin j false)) as [E2|N2];
+    try congruence; subst; simpl.
+  - destruct (Z.eq_dec j j); try congruence. lia.
+  - destruct (Z.eq_dec j j); try congruence. lia.
+  - destruct e; simpl; auto. destruct (Z.eq_dec j0 j); auto. subst. destruct q; congruence.
+Qed.
+
+Definition deq_of (e : sev) : list Z := match e with SDeq j => [j] | _ => [] end.
+Definition beg_of (e : sev) : list Z := match e with SBegin j true => [j] | _ => [] end.
+Lemma deq_order_cons : forall e es, deq_order (e :: es) = deq_order es ++ deq_of e.
+Proof. intros. unfold deq_order. simpl. rewrite rev_app_distr. destruct e; simpl; auto using app_nil_r. Qed.
+Lemma begin_order_cons : forall e es, begin_order (e :: es) = begin_order es ++ beg_of e.
+Proof.
+  intros. unfold begin_order. simpl. rewrite rev_app_distr. destruct e; simpl; auto using app_nil_r.
+  destruct q; simpl; auto using app_nil_r.
+Qed.
+
+Lemma earlier_cons : forall x older e es,
+  earlier (x :: older) (e :: es) -> (x = e /\ older = es) \/ earlier (x :: older) es.
+Proof.
+  intros x older e es [newer H]. destruct newer; simpl in H.
+  - inversion H. auto.
+  - inversion H. right. exists newer. auto.
+Qed.
+Lemma earlier_nil : forall x older, ~ earlier (x :: older) [].
+Proof. intros x older [newer H]. destruct newer; discriminate. Qed.
+
+Lemma left_cons : forall e es j, left es j -> left (e :: es) j.
+Proof. unfold left. simpl. tauto. Qed.
+
+Lemma count_occ_snoc : forall (l : list Z) i j,
+  count_occ Z.eq_dec (l ++ [i]) j = count_occ Z.eq_dec l j + (if Z.eq_dec i j then 1 else 0).
+Proof. intros. rewrite count_occ_app. simpl. destruct (Z.eq_dec i j); lia. Qed.
+
+(* ---------- tokens: where a job that has not begun yet can be ---------- *)
+Definition creates (o : op) (j : Z) : nat :=
+  match o with OAdd i | OInsert i | OSpawn i => if Z.eq_dec i j then 1 else 0 | _ => 0 end.
+Fixpoint tokops (j : Z) (ops : list op) : nat :=
+  match ops with [] => 0 | o :: r => creates o j + tokops j r end.
+Fixpoint tokk (j : Z) (k : kont) : nat :=
+  match k with KClient ops => tokops j ops | KJob => 0 | KRel k' => tokk j k' | KRetV _ k' => tokk j k' end.
+Definition tokpt (j : Z) (pt : point) : nat :=
   match pt with
-  | Enq1 _ _ | Enq2 | Run1 | Run2 | Run3 | Run4 _ | Run5 _ | Run6 _ | Done1 _ | Done2
-  | Sp1 _ | Sp2 _ | Bg1 _ | Sj1 _ | Sj2 _ | Sj3 | Sj4 _ | Sj5 _ | Sj6 _ | RelV _ => true
-  | _ => false
+  | Enq0 i _ | Enq1 i _ | Sp0 i | Sp1 i | Sp2 i | Run4 i | Run5 i | Run6 i | Job0 i _ =>
+      if Z.eq_dec i j then 1 else 0
+  | _ => 0
   end.
-Definition top_rel (k : kont) : bool := match k with KRel _ => true | _ => false end.
-Definition job_point (pt : point) : bool :=
-  match pt with Job0 _ _ | Job1 _ _ | Job2 _ _ | Done0 _ | Bg0 _ => true | _ => false end.
-Definition wf_pc (p : pc) : bool :=
-  (negb (needs_lock (fst p)) || top_rel (snd p))
-  && match fst p, snd p with Unw _, KRetV _ _ => false | _, _ => true end
-  && (negb (job_point (fst p)) || match snd p with KJob => true | _ => false end).
+Definition tok (j : Z) (p : pc) : nat := tokpt j (fst p) + tokk j (snd p).
 
-Lemma krels_ret_to : forall k, held (ret_to k) = krels k.
-Proof. destruct k; simpl; auto. destruct ops; simpl; auto. destruct o; simpl; auto. Qed.
-Lemma krels_unw_to : forall e k, held (unw_to e k) = krels k.
-Proof. induction k; simpl; auto. Qed.
-Lemma wf_ret_to : forall k, wf_pc (ret_to k) = true.
-Proof. destruct k; simpl; auto. destruct ops; simpl; auto. destruct o; simpl; auto. Qed.
-Lemma wf_unw_to : forall e k, wf_pc (unw_to e k) = true.
+Lemma tok_enter : forall j o r, tok j (enter o r) = creates o j + tokops j r.
+Proof. destruct o; simpl; intros; unfold tok; simpl; lia. Qed.
+Lemma tok_ret_to : forall j k, tok j (ret_to k) = tokk j k.
+Proof.
+  destruct k; simpl; auto. destruct ops; simpl; auto. rewrite tok_enter. auto.
+Qed.
+Lemma tok_unw_to : forall j e k, tok j (unw_to e k) = tokk j k.
 Proof. induction k; simpl; auto. Qed.
 
-Definition lk (c : config pc) := locks (sh c) 0.
-Definition owner_depth (c : config pc) (t : nat) : nat :=
-  match lk c with Some (o, n) => if Nat.eqb o t then n else 0 | None => 0 end.
+(* program points *)
+Definition pend_of (pt : point) : option Z :=
+  match pt with Run4 a | Run5 a | Run6 a | Job0 a true => Some a | _ => None end.
+Definition will_run (pt : point) : bool :=
+  match pt with Enq2 | Run0 | Run1 | Run2 | Run3 | Run4 _ | Done2 => true | _ => false end.
 
-
-(* ---------- classes of program points ---------- *)
-Definition act_none_pt (pt : point) : bool :=
-  match pt with Run2 | Run3 | Run4 _ => true | _ => false end.
-(* the thread that answers for the active job a: from the store into _active_agent to its reset *)
-Definition own_of (pt : point) : option Z :=
-  match pt with
-  | Run5 a | Run6 a | Job0 a true | Job1 a true | Job2 a true | Done0 a | Done1 a => Some a
-  | _ => None
-  end.
-Definition own (p : pc) : nat := match own_of (fst p) with Some _ => 1 | None => 0 end.
-
-Lemma own_ret_to : forall k, own (ret_to k) = 0.
-Proof. destruct k; simpl; auto. destruct ops; simpl; auto. destruct o; simpl; auto. Qed.
-Lemma own_unw_to : forall e k, own (unw_to e k) = 0.
-Proof. induction k; simpl; auto. Qed.
-
-Notation act c := (fields (sh c) 0).
-Notation qu c := (deques (sh c) 0).
-Notation bgd c := (dicts (sh c) 0).
-Notation ev c := (events (hist c)).
-
-Record Inv1 (c : config pc) : Prop := {
-  i_wf : forall u q, nth_error (thr c) u = Some q -> wf_pc q = true;
-  i_lock : forall u q, nth_error (thr c) u = Some q -> held q = owner_depth c u;
-  i_lockown : forall o n, lk c = Some (o, n) -> o < length (thr c) /\ 1 <= n;
-  i_actshape : act c = VNone \/ exists a, act c = VRef a;
-  i_actnone : forall u q, nth_error (thr c) u = Some q -> act_none_pt (fst q) = true -> act c = VNone;
-  i_actown : forall u q a, nth_error (thr c) u = Some q -> own_of (fst q) = Some a -> act c = VRef a;
-  i_own : wsum own (thr c) = match act c with VNone => 0 | _ => 1 end
+Record Inv2 (c : config pc) : Prop := {
+  i_queue : qu c = map VRef (aqueue (ev c));
+  i_once : forall j, exec_count (ev c) j + wsum (tok j) (thr c) + count_occ Z.eq_dec (aqueue (ev c)) j <= 1;
+  i_exec : forall j q, In (SBegin j q) (ev c) ->
+             left (ev c) j \/ exists u k, nth_error (thr c) u = Some (Job1 j q, k) \/ nth_error (thr c) u = Some (Job2 j q, k);
+  i_fifo1 : forall older j, earlier (SDeq j :: older) (ev c) -> hd_error (aqueue older) = Some j
 }.
-
-Lemma holder_lock : forall c t p,
-  (forall u q, nth_error (thr c) u = Some q -> held q = owner_depth c u) ->
-  nth_error (thr c) t = Some p -> 1 <= held p -> locks (sh c) 0 = Some (t, held p).
-Proof.
-  intros c t p H Hn Hh. apply H in Hn. unfold owner_depth, lk in Hn.
-  destruct (locks (sh c) 0) as [[o n]|]; try lia.
-  destruct (Nat.eqb_spec o t); subst; try lia. congruence.
-Qed.
-
-Lemma wf_needs_lock : forall pt k, wf_pc (pt, k) = true -> needs_lock pt = true -> 1 <= krels k.
-Proof.
-  intros pt k H N. unfold wf_pc in H. simpl in H. rewrite N in H. simpl in H.
-  destruct k; simpl in *; try discriminate; lia.
-Qed.
-
-(* two threads that both need the lock are the same thread *)
-Lemma lock_exclusive : forall c u v pu ku pv kv,
-  Inv1 c -> nth_error (thr c) u = Some (pu, ku) -> nth_error (thr c) v = Some (pv, kv) ->
-  needs_lock pu = true -> needs_lock pv = true -> u = v.
-Proof.
-  intros c u v pu ku pv kv I Hu Hv Nu Nv.
-  pose proof (wf_needs_lock _ _ (i_wf c I _ _ Hu) Nu) as Lu.
-  pose proof (wf_needs_lock _ _ (i_wf c I _ _ Hv) Nv) as Lv.
-  pose proof (holder_lock c u _ (i_lock c I) Hu Lu) as Eu.
-  pose proof (holder_lock c v _ (i_lock c I) Hv Lv) as Ev.
-  congruence.
-Qed.
-
-(* at most one thread answers for the active job *)
-Lemma own_unique : forall c u v pu pv,
-  Inv1 c -> nth_error (thr c) u = Some pu -> nth_error (thr c) v = Some pv ->
-  own pu = 1 -> own pv = 1 -> u = v.
-Proof.
-  intros c u v pu pv I Hu Hv Ou Ov.
-  destruct (Nat.eq_dec u v); auto.
-  pose proof (wsum_two _ own _ _ _ _ _ Hu Hv n).
-  pose proof (i_own c I). destruct (act c); lia.
-Qed.
 
 Section Proofs.
   Variable bodies : Z -> body.
@@ -115,252 +91,106 @@ Section Proofs.
   Notation code' := (code bodies isr_once).
   Notation step' := (step pc code').
 
-  (* inversion of one step into the cases of the access programs *)
-  Ltac case_code :=
-    match goal with
-    | H : code' (?pt, ?k) = _ |- _ =>
-        destruct pt; simpl in H;
-        try (match type of H with context [match ?k with _ => _ end] => destruct k; simpl in H end);
-        try (match type of H with context [match bodies ?j with _ => _ end] => destruct (bodies j); simpl in H end);
-        try (match type of H with context [if isr_once then _ else _] => destruct isr_once; simpl in H end);
-        try (match type of H with context [if ?f then _ else _] => destruct f; simpl in H end);
-        try discriminate; inversion H; subst; clear H
-    end.
+  Ltac marks := unfold mk_begin_q, mk_begin_bg, mk_end, mk_raise, mk_ret, mk_exc in *.
 
-  Ltac exec_inv Hx :=
-    simpl in Hx;
-    repeat match type of Hx with
-    | context [match locks ?s 0 with _ => _ end] =>
-        let o := fresh "o" in let n := fresh "n" in let E := fresh "Elk" in
-        destruct (locks s 0) as [[o n]|] eqn:E
-    | context [if Nat.eqb ?o ?t then _ else _] => let E := fresh "Eot" in destruct (Nat.eqb o t) eqn:E
-    | context [match deques ?s 0 with _ => _ end] => let E := fresh "Equ" in destruct (deques s 0) eqn:E
-    | context [if dict_has ?d ?k then _ else _] => let E := fresh "Edh" in destruct (dict_has d k) eqn:E
-    | context [if flags ?s ?e then _ else _] => let E := fresh "Efl" in destruct (flags s e) eqn:E
-    end; try discriminate; inversion Hx; subst; clear Hx.
-
-  (* all cases of one step; [I : Inv1 c] is used to know that a release is by the owner *)
-  Ltac step_cases Hs I :=
-    apply step_inv in Hs;
-    destruct Hs as [[pt k] [Hp [[l [kf [s' [r [Hc [Hx Hc']]]]]]|[ch [kf [Hc Hc']]]]]];
-    [ case_code;
-      try (match type of Hx with exec _ (LRelease 0) _ = _ =>
-             match type of Hp with nth_error _ _ = Some ?p =>
-               let Hh := fresh "Hh" in let L := fresh "Hlk" in
-               assert (Hh : 1 <= held p) by (unfold held; simpl; lia);
-               pose proof (holder_lock _ _ _ (i_lock _ I) Hp Hh) as L;
-               unfold held in L; simpl in L; simpl in Hx; rewrite L in Hx; rewrite Nat.eqb_refl in Hx; clear Hh
-             end end);
-      exec_inv Hx
-    | case_code ].
-
-  Lemma inv1_wf : forall c t c', Inv1 c -> step' c t = Some c' ->
-    forall u q, nth_error (thr c') u = Some q -> wf_pc q = true.
+  Lemma inv2_queue : forall c t c', Inv1 c -> Inv2 c -> step' c t = Some c' ->
+    qu c' = map VRef (aqueue (ev c')).
   Proof.
-    intros c t c' I Hs. step_cases Hs I; intros uu qq Hu; simpl in Hu.
-    all: try (apply nth_error_app_one in Hu; destruct Hu as [[_ Hu]|[_ ->]]; [|reflexivity]).
-    all: eapply nth_error_set_nth in Hu; [|exact Hp]; destruct Hu as [[-> ->]|[Hne Hu]]; [|eapply i_wf; eauto].
-    all: pose proof (i_wf _ I _ _ Hp) as W.
-    all: try apply wf_ret_to; try apply wf_unw_to; try reflexivity.
-    all: repeat match goal with |- context [match ?x with _ => _ end] => destruct x end.
-    all: try apply wf_ret_to; try apply wf_unw_to; try reflexivity.
-    all: try (match goal with |- wf_pc (enter ?o _) = _ => destruct o; reflexivity end).
-    all: unfold wf_pc in *; simpl in *; try (destruct k; simpl in *; auto; discriminate).
+    intros c t c' I I2 Hs. pose proof (i_queue _ I2) as Q. step_cases Hs I.
+    all: marks; simpl; unfold updn; simpl.
+    all: try exact Q.
+    all: try (rewrite Q; try rewrite map_app; reflexivity).
+    all: try (rewrite Equ; exact Q).
+    all: try reflexivity.
+    all: destruct (aqueue (ev c)); simpl in Q; inversion Q; subst; reflexivity.
   Qed.
 
-  Lemma held_enter : forall o r, held (enter o r) = 0.
-  Proof. destruct o; reflexivity. Qed.
-
-  Ltac held_norm :=
-    repeat match goal with |- context [match ?x with _ => _ end] => destruct x end;
-    repeat rewrite krels_ret_to; repeat rewrite krels_unw_to; repeat rewrite held_enter; simpl.
-
-  Lemma inv1_lockown : forall c t c', Inv1 c -> step' c t = Some c' ->
-    forall o n, lk c' = Some (o, n) -> o < length (thr c') /\ 1 <= n.
+  (* ----- exactly once: tokens ----- *)
+  Lemma inv2_once : forall c t c', Inv1 c -> Inv2 c -> step' c t = Some c' ->
+    forall j, exec_count (ev c') j + wsum (tok j) (thr c') + count_occ Z.eq_dec (aqueue (ev c')) j <= 1.
   Proof.
-    intros c t c' I Hs. step_cases Hs I.
-    all: pose proof (nth_error_lt _ _ _ _ Hp) as Ltl; pose proof (i_lockown _ I) as Lo.
-    all: intros oo nn Ho; simpl in Ho.
-    all: unfold lk in *; simpl in *; try rewrite app_length; rewrite set_nth_length.
-    all: first [ apply Lo in Ho; simpl; lia
-               | inversion Ho; subst; simpl; lia
-               | destruct (krels k); inversion Ho; subst; simpl; lia
-               | apply Nat.eqb_eq in Eot; inversion Ho; subst; simpl; lia
-               | idtac ].
-  Qed.
-
-  Lemma inv1_lock : forall c t c', Inv1 c -> step' c t = Some c' ->
-    forall u q, nth_error (thr c') u = Some q -> held q = owner_depth c' u.
-  Proof.
-    intros c t c' I Hs. step_cases Hs I.
-    all: pose proof (i_lock _ I _ _ Hp) as Lt; pose proof (nth_error_lt _ _ _ _ Hp) as Ltl.
-    all: pose proof (i_lockown _ I) as Lo.
-    all: intros uu qq Hu; simpl in Hu.
-    all: try (apply nth_error_app_one in Hu; destruct Hu as [[_ Hu]|[-> ->]];
-              [| rewrite set_nth_length; unfold owner_depth, lk in *; simpl in *;
-                 destruct (locks (sh c) 0) as [[o1 n1]|]; auto;
-                 destruct (Nat.eqb_spec o1 (length (thr c))); auto;
-                 specialize (Lo _ _ eq_refl); lia ]).
-    all: eapply nth_error_set_nth in Hu; [|exact Hp]; destruct Hu as [[-> ->]|[Hne Hu]].
-    (* other threads *)
-    all: try (apply (i_lock _ I) in Hu; rewrite Hu; unfold owner_depth, lk in *; simpl in *;
-              try rewrite Elk; try rewrite Hlk; auto;
-              try (apply Nat.eqb_eq in Eot; subst);
-              repeat match goal with |- context [Nat.eqb ?a ?b] => destruct (Nat.eqb_spec a b) end;
-              try congruence; try lia; destruct (krels k); simpl;
-              repeat match goal with |- context [Nat.eqb ?a ?b] => destruct (Nat.eqb_spec a b) end;
-              congruence).
-    all: repeat match goal with |- context [held (match ?x with _ => _ end)] => destruct x end.
-    all: repeat rewrite krels_ret_to; repeat rewrite krels_unw_to; repeat rewrite held_enter.
-    all: unfold owner_depth, lk, held in *; simpl in *; unfold updn in *; simpl in *.
-    all: try rewrite Hlk in *; try rewrite Elk in *; try (apply Nat.eqb_eq in Eot; subst).
-    all: try rewrite Nat.eqb_refl in *; try lia.
-    all: try (destruct (krels k); simpl; try rewrite Nat.eqb_refl; lia).
-  Qed.
-
-  Lemma inv1_actshape : forall c t c', Inv1 c -> step' c t = Some c' ->
-    act c' = VNone \/ exists a, act c' = VRef a.
-  Proof.
-    intros c t c' I Hs. step_cases Hs I.
-    all: simpl; unfold updn; simpl.
-    all: first [ exact (i_actshape _ I) | left; reflexivity | right; eexists; reflexivity ].
-  Qed.
-
-  Lemma actnone_needs_lock : forall pt, act_none_pt pt = true -> needs_lock pt = true.
-  Proof. destruct pt; simpl; auto. Qed.
-  Lemma actnone_enter : forall o r, act_none_pt (fst (enter o r)) = false.
-  Proof. destruct o; reflexivity. Qed.
-  Lemma ownof_enter : forall o r, own_of (fst (enter o r)) = None.
-  Proof. destruct o; reflexivity. Qed.
-  Lemma actnone_ret_to : forall k, act_none_pt (fst (ret_to k)) = false.
-  Proof. destruct k; simpl; auto. destruct ops; simpl; auto. destruct o; simpl; auto. Qed.
-  Lemma actnone_unw_to : forall e k, act_none_pt (fst (unw_to e k)) = false.
-  Proof. induction k; simpl; auto. Qed.
-  Lemma ownof_ret_to : forall k, own_of (fst (ret_to k)) = None.
-  Proof. destruct k; simpl; auto. destruct ops; simpl; auto. destruct o; simpl; auto. Qed.
-  Lemma ownof_unw_to : forall e k, own_of (fst (unw_to e k)) = None.
-  Proof. induction k; simpl; auto. Qed.
-
-  Lemma inv1_actnone : forall c t c', Inv1 c -> step' c t = Some c' ->
-    forall u q, nth_error (thr c') u = Some q -> act_none_pt (fst q) = true -> act c' = VNone.
-  Proof.
-    intros c t c' I Hs. step_cases Hs I.
-    all: intros uu qq Hu Hn; simpl in Hu.
-    all: try (apply nth_error_app_one in Hu; destruct Hu as [[_ Hu]|[-> ->]]; [|discriminate Hn]).
-    all: eapply nth_error_set_nth in Hu; [|exact Hp]; destruct Hu as [[-> ->]|[Hne Hu]].
-    (* other threads: only a write by the lock holder could matter *)
-    all: try (pose proof (i_actnone _ I _ _ Hu Hn) as Hold; simpl; unfold updn; simpl;
-              first [ exact Hold | reflexivity
-                    | exfalso; destruct qq as [pq kq]; apply Hne;
-                      eapply (lock_exclusive c); [exact I | exact Hu | exact Hp | apply actnone_needs_lock; exact Hn | reflexivity] ]).
-    (* the moving thread *)
-    all: revert Hn; simpl.
-    all: repeat match goal with |- context [act_none_pt (fst (match ?x with _ => _ end))] => destruct x eqn:? end.
-    all: try rewrite actnone_ret_to; try rewrite actnone_unw_to; try rewrite actnone_enter; simpl; try discriminate.
-    all: intros _; unfold updn; simpl; auto.
-    all: try (eapply (i_actnone _ I); [exact Hp | reflexivity]).
-    all: destruct (act c); simpl in *; auto; discriminate.
-  Qed.
-
-  Lemma inv1_actown : forall c t c', Inv1 c -> step' c t = Some c' ->
-    forall u q a, nth_error (thr c') u = Some q -> own_of (fst q) = Some a -> act c' = VRef a.
-  Proof.
-    intros c t c' I Hs. step_cases Hs I.
-    all: intros uu qq aa Hu Hn; simpl in Hu.
-    all: try (match type of Hu with nth_error (_ ++ _) _ = _ =>
-              apply nth_error_app_one in Hu; destruct Hu as [[_ Hu]|[-> ->]];
-              [| simpl in Hn; first [ discriminate Hn
-                                     | inversion Hn; subst; eapply (i_actown _ I); [exact Hp | reflexivity] ] ] end).
-    all: eapply nth_error_set_nth in Hu; [|exact Hp]; destruct Hu as [[-> ->]|[Hne Hu]].
-    (* other threads *)
-    all: try (pose proof (i_actown _ I _ _ _ Hu Hn) as Hold; simpl; unfold updn; simpl;
-              first [ exact Hold
-                    | exfalso; pose proof (i_actnone _ I _ _ Hp eq_refl) as Hnone; congruence
-                    | exfalso; apply Hne; eapply (own_unique c); [exact I | exact Hu | exact Hp | unfold own; rewrite Hn; reflexivity | reflexivity] ]).
-    (* the moving thread *)
-    all: revert Hn; simpl.
-    all: repeat match goal with |- context [own_of (fst (match ?x with _ => _ end))] => destruct x eqn:? end.
-    all: try rewrite ownof_ret_to; try rewrite ownof_unw_to; try rewrite ownof_enter; simpl; try discriminate.
-    all: intros Hn; inversion Hn; subst; unfold updn; simpl; auto.
-    all: try (eapply (i_actown _ I); [exact Hp | reflexivity]).
-    all: destruct q; simpl in *; try discriminate; inversion Hn; subst;
-         eapply (i_actown _ I); [exact Hp | reflexivity].
-  Qed.
-
-  Lemma own_enter : forall o r, own (enter o r) = 0.
-  Proof. destruct o; reflexivity. Qed.
-
-  Lemma inv1_own : forall c t c', Inv1 c -> step' c t = Some c' ->
-    wsum own (thr c') = match act c' with VNone => 0 | _ => 1 end.
-  Proof.
-    intros c t c' I Hs. step_cases Hs I.
-    all: simpl; try rewrite wsum_app;
+    intros c t c' I I2 Hs jj. pose proof (i_queue _ I2) as Q. pose proof (i_once _ I2 jj) as O.
+    step_cases Hs I.
+    all: marks; simpl hist; simpl thr; try rewrite wsum_app;
          match goal with |- context [set_nth (thr ?c0) ?t0 ?new] =>
-           pose proof (wsum_set_nth _ own (thr c0) t0 new _ Hp) as W end.
-    all: pose proof (i_own _ I) as O.
-    all: try (pose proof (i_actnone _ I _ _ Hp eq_refl) as An).
+           pose proof (wsum_set_nth _ (tok jj) (thr c0) t0 new _ Hp) as W end.
     all: try (pose proof (i_actown _ I _ _ _ Hp eq_refl) as Ao).
-    all: unfold updn; simpl.
-    all: repeat match type of W with context [own (match ?x with _ => _ end)] => destruct x eqn:? end.
-    all: try rewrite own_ret_to in W; try rewrite own_unw_to in W; try rewrite own_enter in W.
-    all: unfold wsum, own in *; simpl in *; try rewrite An in *; try rewrite Ao in *; try congruence; try lia.
+    all: unfold events; simpl map; fold (events (hist c)); rewrite exec_count_cons.
+    all: repeat match type of W with context [tok _ (match ?x with _ => _ end)] => destruct x eqn:? end.
+    all: try rewrite tok_ret_to in W; try rewrite tok_unw_to in W; try rewrite tok_enter in W.
+    all: unfold wsum, tok in *; simpl in *.
+    all: try lia.
+    all: try (destruct (Z.eq_dec j jj); lia).
+    all: try (rewrite count_occ_snoc; destruct (Z.eq_dec j jj); lia).
+    all: try (match goal with H1 : fields (sh ?c) 0 = VRef ?x, H2 : fields (sh ?c) 0 = VRef ?y |- _ =>
+                assert (x = y) by congruence; subst end; simpl in *; lia).
+    all: destruct (aqueue (ev c)); simpl in *; inversion Q; subst;
+         repeat match goal with |- context [Z.eq_dec ?a ?b] => destruct (Z.eq_dec a b) end;
+         repeat match goal with H : context [Z.eq_dec ?a ?b] |- _ => destruct (Z.eq_dec a b) end; try congruence; lia.
   Qed.
 
-  Lemma inv1_step : forall c t c', Inv1 c -> step' c t = Some c' -> Inv1 c'.
+  Lemma nth_error_other : forall (l : list pc) t new u q extra,
+    u <> t -> nth_error l u = Some q -> nth_error (set_nth l t new ++ extra) u = Some q.
   Proof.
-    intros c t c' I Hs. constructor.
-    - eapply inv1_wf; eauto.
-    - eapply inv1_lock; eauto.
-    - eapply inv1_lockown; eauto.
-    - eapply inv1_actshape; eauto.
-    - eapply inv1_actnone; eauto.
-    - eapply inv1_actown; eauto.
-    - eapply inv1_own; eauto.
+    intros. rewrite nth_error_app1.
+    - rewrite nth_error_set_nth_neq; auto.
+    - rewrite set_nth_length. eapply nth_error_lt; eauto.
+  Qed.
+  Lemma nth_error_other0 : forall (l : list pc) t new u q,
+    u <> t -> nth_error l u = Some q -> nth_error (set_nth l t new) u = Some q.
+  Proof. intros. rewrite nth_error_set_nth_neq; auto. Qed.
+  Lemma nth_error_self : forall (l : list pc) t new old extra,
+    nth_error l t = Some old -> nth_error (set_nth l t new ++ extra) t = Some new.
+  Proof.
+    intros. rewrite nth_error_app1.
+    - eapply nth_error_set_nth_eq; eauto.
+    - rewrite set_nth_length. eapply nth_error_lt; eauto.
   Qed.
 
-  (* initial configurations: every thread is a client about to issue its first call *)
-  Definition client_pc (p : pc) : Prop := exists ops, p = client ops.
-
-  Lemma client_pc_facts : forall p, client_pc p ->
-    wf_pc p = true /\ held p = 0 /\ act_none_pt (fst p) = false /\ own_of (fst p) = None.
+  (* ----- a job whose execute() was entered and not left is at Job1/Job2 ----- *)
+  Lemma inv2_exec : forall c t c', Inv1 c -> Inv2 c -> step' c t = Some c' ->
+    forall j q, In (SBegin j q) (ev c') ->
+      left (ev c') j \/ exists u k, nth_error (thr c') u = Some (Job1 j q, k) \/ nth_error (thr c') u = Some (Job2 j q, k).
   Proof.
-    intros p [ops ->]. unfold client.
-    repeat split; [apply wf_ret_to | rewrite krels_ret_to; reflexivity | apply actnone_ret_to | apply ownof_ret_to].
+    intros c t c' I I2 Hs jj qq Hin. pose proof (i_exec _ I2 jj qq) as X.
+    step_cases Hs I.
+    all: marks; simpl hist in *; unfold events in Hin; simpl map in Hin; fold (events (hist c)) in Hin.
+    all: unfold events; simpl map; fold (events (hist c)); simpl thr.
+    all: destruct Hin as [Heq|Hin];
+         [ simpl in Heq; try discriminate Heq;
+           try (repeat match type of Heq with context [match ?x with _ => _ end] => destruct x end; discriminate Heq)
+         | ].
+    (* the new event is this begin: the moving thread is the witness *)
+    all: try (inversion Heq; subst; right; exists t; eexists; left; eapply nth_error_set_nth_eq; exact Hp).
+    (* older begin *)
+    all: destruct (X Hin) as [L|[u [k0 W]]]; [left; apply left_cons; exact L|].
+    all: destruct (Nat.eq_dec u t) as [->|Hne];
+         [ rewrite Hp in W; destruct W as [W|W]; inversion W; subst
+         | right; exists u, k0; destruct W as [W|W]; [left|right];
+           first [ apply nth_error_other0; assumption | apply nth_error_other; assumption ] ].
+    all: first [ left; unfold left; simpl; tauto
+               | right; exists t, k0; right; eapply nth_error_set_nth_eq; exact Hp ].
   Qed.
 
-  Lemma nth_init_client : forall clients u q,
-    nth_error (thr (jc_init clients)) u = Some q -> client_pc q.
+  Lemma inv2_fifo1 : forall c t c', Inv1 c -> Inv2 c -> step' c t = Some c' ->
+    forall older j, earlier (SDeq j :: older) (ev c') -> hd_error (aqueue older) = Some j.
   Proof.
-    intros clients u q H. simpl in H. apply nth_error_In in H. apply in_map_iff in H.
-    destruct H as [ops [<- _]]. exists ops. reflexivity.
+    intros c t c' I I2 Hs older jj He. pose proof (i_fifo1 _ I2 older jj) as X.
+    pose proof (i_queue _ I2) as Q.
+    step_cases Hs I.
+    all: marks; simpl hist in *; unfold events in He; simpl map in He; fold (events (hist c)) in He.
+    all: apply earlier_cons in He; destruct He as [[Heq ->]|He]; [|exact (X He)].
+    all: simpl in Heq; try discriminate Heq.
+    all: try (repeat match type of Heq with context [match ?x with _ => _ end] => destruct x end; discriminate Heq).
+    all: destruct (aqueue (ev c)); simpl in Q; inversion Q; subst; simpl in Heq; inversion Heq; reflexivity.
   Qed.
 
-  Lemma wsum_zero : forall A (w : A -> nat) l, (forall x, In x l -> w x = 0) -> wsum w l = 0.
+  Lemma inv2_step : forall c t c', Inv1 c -> Inv2 c -> step' c t = Some c' -> Inv2 c'.
   Proof.
-    unfold wsum. induction l; simpl; intros; auto. rewrite H by auto. rewrite IHl; auto.
-  Qed.
-
-  Lemma inv1_init : forall clients, Inv1 (jc_init clients).
-  Proof.
-    intros clients. constructor.
-    - intros u q H. apply nth_init_client in H. apply client_pc_facts in H. tauto.
-    - intros u q H. apply nth_init_client in H. apply client_pc_facts in H.
-      unfold owner_depth, lk. simpl. tauto.
-    - unfold lk. simpl. discriminate.
-    - left. reflexivity.
-    - intros u q H Hn. apply nth_init_client in H. apply client_pc_facts in H.
-      destruct H as [_ [_ [H _]]]. congruence.
-    - intros u q a H Hn. apply nth_init_client in H. apply client_pc_facts in H.
-      destruct H as [_ [_ [_ H]]]. congruence.
-    - simpl. apply wsum_zero. intros x Hx. apply in_map_iff in Hx. destruct Hx as [ops [<- _]].
-      unfold client. apply own_ret_to.
-  Qed.
-
-  Lemma inv1_reachable : forall clients c, jc_reachable bodies isr_once clients c -> Inv1 c.
-  Proof.
-    intros clients c R. unfold jc_reachable in R.
-    apply (reachable_ind_inv pc code' (jc_init clients) Inv1); auto.
-    - apply inv1_init.
-    - intros. eapply inv1_step; eauto.
+    intros c t c' I I2 Hs. constructor.
+    - eapply inv2_queue; eauto.
+    - eapply inv2_once; eauto.
+    - eapply inv2_exec; eauto.
+    - eapply inv2_fifo1; eauto.
   Qed.
 End Proofs.
